@@ -56,7 +56,13 @@ class VTask(asyncio.Task):
             self.vid = lp._next_task_id
             lp._next_task_id += 1
             cur = asyncio.current_task(lp) if lp.is_running() else None
-            lp.task_log.append(("create", self.vid, self.qualname, getattr(cur, "vid", None), lp.iteration))
+            loc = getattr(getattr(coro, "cr_frame", None), "f_locals", None) or {}
+            self.vlabel = {"key": getattr(loc.get("key"), "id_", None),
+                           "queue": getattr(loc.get("consumer"), "queue_name", None) or loc.get("queue_name")}
+            lp.task_log.append(("create", self.vid, self.qualname, getattr(cur, "vid", None), lp.iteration, self.vlabel))
+            if lp.task_hook is not None:
+                lp.task_hook("task_create", self)
+                self.add_done_callback(lambda t: lp.task_hook and lp.task_hook("task_done", self))
             self.add_done_callback(lambda t: lp.task_log.append(
                 ("done", self.vid, self.qualname, "cancelled" if t.cancelled() else
                  ("exc:" + type(t.exception()).__name__ if t.exception() is not None else "ok"), lp.iteration)))
@@ -65,6 +71,8 @@ class VTask(asyncio.Task):
         lp = self._loop
         if isinstance(lp, VirtualLoop) and lp.task_log is not None and hasattr(self, "vid"):
             lp.task_log.append(("cancel", self.vid, self.qualname, None, lp.iteration))
+            if lp.task_hook is not None and not self.done():
+                lp.task_hook("task_cancel", self)
         return super().cancel(msg)
 
 
@@ -76,6 +84,7 @@ class VirtualLoop(asyncio.SelectorEventLoop):
         self.step_hook: Callable[["VirtualLoop"], None] | None = None
         self.signal_handlers: dict[int, Callable] = {}
         self.task_log: list | None = [] if record_tasks else None
+        self.task_hook = None
         self._next_task_id = 1
         self.max_iterations = 5_000_000
         super().__init__(selector=_Selector(self))
